@@ -6,7 +6,7 @@ from vlib import cN, cNhex, cbool, cnat, clist
 
 ID = "C15"
 PROPERTIES_V = ["theories/Properties/C15.v"]
-MAKE_TARGETS = ["theories/Properties/C15.vo", "theories/Model/C15Cases.vo", "theories/Model/C15Reorg.vo"]
+MAKE_TARGETS = ["theories/Properties/C15.vo", "theories/Model/C15Cases.vo", "theories/Model/C15Reorg.vo", "theories/Proofs/GenAgreeOracle.vo"]
 HARNESS = "c15"
 CASES_IMPORTS = ("From Coq Require Import NArith ZArith List.\n"
                  "From Verif Require Import Base.Bytes Model.Oracle Model.C19Cases Model.C15Cases Model.C15Reorg.")
@@ -134,7 +134,8 @@ LEVEL_TEXT = ("Kernel-checked theorems over a one-for-one model of the oracle ti
               "REORGANISED between ticks in any way (run_r: an injected root is the most recent one, at or below the last sampled block, of the "
               "history canonical at the tick of the injection; no root twice). The model is tied to the Go code by running the real AggOracle tick against "
               "the real l1infotreesync store (its real Reorg included), a scripted L1 client and a recording sender on hundreds of schedules per run.")
-LEVEL_NOTE = ("Trusted: Coq kernel + vm_compute, the hand transcription of oracle.go / GetLatestInfoUntilBlock (validated per tick by "
-              "the correspondence), the scripted L1 client / fault wrapper / recording sender of harness/c15, SQLite below the real "
+LEVEL_NOTE = ("Trusted: Coq kernel + vm_compute, the translator tools/go2coq for oracle.go (its output proved equal to the model), the hand "
+              "transcription of GetLatestInfoUntilBlock (validated per tick by the correspondence), the scripted L1 client / fault wrapper / recording sender of harness/c15, SQLite below the real "
               "store. Not modelled: ticker timing, goroutines, the EVM sender's transaction management (chaingersender).")
-TECHNIQUE = "Coq proof (induction over schedules, invariants) + differential correspondence per tick via vm_compute"
+TECHNIQUE = ("Coq proof (induction over schedules, invariants); aggoracle/oracle.go processLatestGER / getLastFinalizedGER TRANSLATED to Gallina on every run "
+             "(tools/go2coq -> Gen/GenOracle.v) and proved equal to the model's tick; differential correspondence per tick via vm_compute")
